@@ -150,6 +150,36 @@ func genC11(g *Gen) {
 	g.w.extra["impl_states_explored"] = states
 	g.w.extra["stategraph_max_content_len"] = maxLen
 
+	// all call histories of a fixed depth (hidden state that the observable state graph cannot see)
+	hops := []c11op{{"read", 0}, {"unread", 0}, {"unreadmany", 2}}
+	depth := g.Pick(5, 6)
+	hlen := g.Pick(3, 4)
+	allStrings([]rune{'x', '\n', '\r'}, hlen, func(content []rune) {
+		if len(content) < 2 {
+			return
+		}
+		idx := make([]int, depth)
+		for {
+			seg := []Ev{{"op": "new", "content": cpsR(content)}}
+			for _, i := range idx {
+				seg = append(seg, hops[i].ev())
+			}
+			g.Run("histories", seg)
+			j := depth - 1
+			for j >= 0 {
+				idx[j]++
+				if idx[j] < len(hops) {
+					break
+				}
+				idx[j] = 0
+				j--
+			}
+			if j < 0 {
+				break
+			}
+		}
+	})
+
 	// random walks
 	r := g.Rand()
 	walks := g.Pick(150, 3000)
